@@ -26,6 +26,8 @@ impl FakePeer {
 pub enum Reply {
     /// the honest default for this request kind
     Default,
+    /// the honest default, `delay_ms` later
+    DefaultAfter(u64),
     Silent,
     /// one datagram after `delay_ms`
     One(B, u64),
@@ -65,13 +67,19 @@ pub fn fake_ip(i: usize) -> Ipv4Addr {
 impl FakeNet {
     /// `ids[i]` is the id of peer i; addresses are private (every id counts as secure).
     pub fn install(sim: &mut Sim, ids: &[[u8; 20]], policy: Policy) -> FakeNet {
-        let peers: Vec<FakePeer> = ids
+        let at: Vec<([u8; 20], SocketAddrV4)> = ids.iter().enumerate().map(|(i, id)| (*id, SocketAddrV4::new(fake_ip(i), 6881))).collect();
+        Self::install_at(sim, &at, policy)
+    }
+
+    /// Peers at chosen addresses (public ones make BEP42 matter: an id is secure only if it is valid for its IP).
+    pub fn install_at(sim: &mut Sim, at: &[([u8; 20], SocketAddrV4)], policy: Policy) -> FakeNet {
+        let peers: Vec<FakePeer> = at
             .iter()
             .enumerate()
-            .map(|(i, id)| FakePeer {
+            .map(|(i, (id, addr))| FakePeer {
                 idx: i,
                 id: *id,
-                addr: SocketAddrV4::new(fake_ip(i), 6881),
+                addr: *addr,
             })
             .collect();
         let listed = (0..peers.len()).collect();
@@ -110,6 +118,10 @@ impl FakeNet {
                         Reply::Silent => vec![],
                         Reply::Default => match default_reply(&s, &me, m, w) {
                             Some(b) => vec![out(b, s.default_delay_ms)],
+                            None => vec![],
+                        },
+                        Reply::DefaultAfter(d) => match default_reply(&s, &me, m, w) {
+                            Some(b) => vec![out(b, d)],
                             None => vec![],
                         },
                         Reply::One(b, d) => vec![out(b, d)],
